@@ -406,6 +406,17 @@ def build_configs(tier, seed):
         add('tri2', el, 'vmass', 'ifacet-0')
     add('tri2', 'TriStokes', 'stokes', 'cell')
     add('tri2', 'TriMixed', 'mixed', 'cell')
+    # composite elements on facet bases: basis functions that vanish on the facet still have a gradient there
+    # (a single facet: the function of the opposite vertex vanishes on the whole basis)
+    add('tri2', 'TriStokes', 'stokes', 'facet-subset:0')
+    add('tri2', 'TriStokes', 'stokes', 'facet-subset:3')
+    add('tri2', 'TriStokes', 'stokes', 'ifacet-1')
+    add('tri2', 'TriMixed', 'mixed', 'facet-subset:2')
+    # coefficient-vector parameters whose length coincides with the number of cells / facets of the basis
+    add('tri2', 'TriP1', 'field', 'facet')            # N = 4 = boundary facets
+    add('tri2', 'TriP1', 'gradfield', 'facet')
+    add('tri3fan', 'TriP1', 'field', 'facet')         # N = 5 = boundary facets
+    add('tri2', 'TriCR', 'field', 'facet-subset:0,1,2,3')
     if not quick:
         add('tri2', 'TriMiniStokes', 'stokes', 'cell')
     # trial != test
